@@ -157,10 +157,11 @@ claim("C08",
       "^/$ emitted under their flags), that the literal-escaping tables contain every regex metacharacter (and the parser-side table is a "
       "superset), that pathname expansion sorts per directory and applies the dot-file policy, and (shared with C06) that the pattern "
       "operators of parameter expansion enumerate fully anchored candidates and never use a leftmost-first search for extents; that no "
-      "pattern of [[ ]] / case / ${v#p} is built from the flat text of an expansion, and that the dot-file policy is per path component.",
+      "pattern of [[ ]] / case / ${v#p} is built from the flat text of an expansion, that the dot-file policy is per path component, and (PEG "
+      "source) that a leading `]` is a bracket member and an escaped letter/digit in a bracket is emitted bare, not as a regex escape.",
       "Trusted: rustc MIR; fancy_regex flag semantics; format literals recovered from call-site snippets. Not decided: the pattern→regex "
       "translation for all patterns, collation order.",
-      ST + "constant/flag inspection, SwitchInt character-table extraction, must-pass-through", "DESIGN.md §3 C08")
+      ST + "constant/flag inspection, SwitchInt character-table extraction, must-pass-through, PEG grammar inspection", "DESIGN.md §3 C08")
 claim("C13",
       "Decides that the quoting character tables cover the reader's word-breaking characters (each listed with its reason) including a "
       "leading `#`/`~`, that each quoting style escapes what it cannot hold, that the one-byte octal fallback of ANSI-C quoting is applied "
